@@ -22,7 +22,10 @@ Inductive cop :=
 | ONew                                              (* req.C() *)
 | OSet (c : cid) (ps : list policy)                 (* c.SetRedirectPolicy(ps...) *)
 | OClone (c : cid)                                  (* c.Clone() - the new client gets the next id *)
-| ODo (c : cid) (init : bytes) (hs : hdrs) (targets : list bytes). (* a request through c with the
+| ODo (c : cid) (init : bytes) (hs : hdrs) (targets : list bytes)
+| OOther (c : cid).   (* any OTHER configuration method of c (SetTimeout, SetCookieJar, SetUserAgent,
+                         SetCommonHeader, DisableKeepAlives ...): the http.Client is updated in place,
+                         CheckRedirect is not touched *) (* a request through c with the
                  caller's headers hs; the servers answer with the scripted Location authorities *)
 
 Definition world := list (list policy).
@@ -54,6 +57,7 @@ Definition cstep (w : world) (o : cop) : world * option outcome :=
       | Some cfg => (w, Some (run_chain cfg init hs targets))
       | None => (w, None)
       end
+  | OOther _ => (w, None)
   end.
 
 (* the final world and the outcomes of the requests, in order *)
@@ -116,6 +120,24 @@ Definition cstep_mv (w : world_mv) (o : cop) : world_mv * option outcome :=
       | Some b => (w, Some (run_chain (nth b fields []) init hs targets))
       | None => (w, None)
       end
+  | OOther _ => (w, None)
+  end.
+
+(* A wrong design kept for contrast (seeded change e-m1): another configuration method (SetTimeout)
+   REBUILDS the http.Client from the fields it knows - CheckRedirect is not among them: the client is
+   back to net/http's default policy (10 requests, any host) *)
+Definition cstep_rebuild (w : world) (o : cop) : world * option outcome :=
+  match o with
+  | OOther c => (match nth_error w c with Some _ => set_nth c [PDefault] w | None => w end, None)
+  | _ => cstep w o
+  end.
+
+Fixpoint crun_rebuild (w : world) (ops : list cop) : list outcome :=
+  match ops with
+  | [] => []
+  | o :: r =>
+      let '(w', oc) := cstep_rebuild w o in
+      match oc with Some x => x :: crun_rebuild w' r | None => crun_rebuild w' r end
   end.
 
 Fixpoint crun_mv (w : world_mv) (ops : list cop) : list outcome :=
